@@ -33,7 +33,7 @@ package kvcache
 //@   loop 1 invariant forall k int :: start <= k && k <= rangeindex ==> len(c.cells[k].sequences) == 0
 
 // ---- abstract view: cell j = (c.cells[j].pos, { s | inseq(c.cells[j].sequences, s) }) ----
-//@ spec func inseq(xs []int, s int) bool = exists k int :: 0 <= k && k < len(xs) && xs[k] == s
+//@ spec func inseq(xs []int, s int) bool := exists k int :: 0 <= k && k < len(xs) && xs[k] == s
 
 //@ extern func slices.Contains
 //@   modifies nothing
@@ -165,6 +165,7 @@ package kvcache
 
 // defrag: loops 1 (count layers), 2 (dst ascending), 3 (src descending), 4 (sequences), 5 (cells)
 //@ func (*Causal).defrag
+//@   opt abstract div
 //@   requires len(c.cells) <= 2147483648 && !fresh(c.cells)
 //@   requires forall j int :: 0 <= j && j < len(c.cells) ==> !fresh(c.cells[j].sequences)
 //@   requires forall j int :: c.ghost_dat[j] == j
@@ -176,6 +177,7 @@ package kvcache
 //@   loop 2 invariant forall j int :: dst <= j && j <= src ==> (j == src && len(c.cells[j].sequences) == 0) || (c.cells[j].pos == old(c.cells[j].pos) && c.cells[j].sequences == old(c.cells[j].sequences))
 //@   loop 2 invariant forall j int :: pendingDst <= j && j < pendingDst + pendingLen ==> len(c.cells[j].sequences) != 0 && c.cells[j].pos == old(c.cells[j-pendingDst+pendingSrc].pos) && c.cells[j].sequences == old(c.cells[j-pendingDst+pendingSrc].sequences)
 //@   loop 2 invariant forall j int :: src < j && j < len(c.cells) ==> len(c.cells[j].sequences) == 0
+//@   loop 2 invariant forall i int :: pendingSrc <= i && i < pendingSrc + pendingLen ==> c.cells[i-pendingSrc+pendingDst].pos == old(c.cells[i].pos) && c.cells[i-pendingSrc+pendingDst].sequences == old(c.cells[i].sequences)
 //@   loop 3 invariant dst <= src && src < len(c.cells) && (pendingLen > 0 ==> src <= pendingSrc)
 //@   loop 3 invariant forall j int :: src < j && j < len(c.cells) ==> len(c.cells[j].sequences) == 0
 //@   assert-at call Close #2 : forall j int, g int :: 0 <= j && j < len(c.cells) && g == c.ghost_dat[j] && len(c.cells[j].sequences) != 0 ==> 0 <= g && g < len(c.cells) && c.cells[j].pos == old(c.cells[g].pos) && c.cells[j].sequences == old(c.cells[g].sequences)
